@@ -324,6 +324,54 @@ func genC18(dir, tier string, seed int64) {
 			try(b, fmt.Sprintf("structured mutant of model fields, variant %d", v))
 		}
 	}
+	// generic single-field mutants: EVERY field (set or unset) of EVERY message of the model tree --
+	// model, opset ids, graph, nodes, attributes (incl. tensor-valued), initializers, value infos,
+	// types, shapes, dimensions -- in every variant of its kind (cleared; integers 0, 1, -1, extremes;
+	// every enum value and two undefined ones; strings; bytes shortened / extended / replaced; lists
+	// emptied, extended by a zero element, shortened, with a duplicated or blanked element; message
+	// fields cleared or replaced by an empty message)
+	rich := &onnx.ModelProto{IrVersion: 7, ProducerName: "verif", OpsetImport: []*onnx.OperatorSetIdProto{{Domain: "", Version: 13}},
+		Graph: &onnx.GraphProto{Name: "g",
+			Initializer: []*onnx.TensorProto{
+				{Name: "w", Dims: []int64{2, 2}, DataType: 1, FloatData: []float32{1, 2, 3, 4}},
+				{Name: "r", Dims: []int64{3}, DataType: 7, RawData: make([]byte, 24)},
+				{Name: "d", Dims: []int64{2}, DataType: 11, DoubleData: []float64{1, 2}},
+				{Name: "i", DataType: 6, Int32Data: []int32{5}},
+				{Name: "u", Dims: []int64{1}, DataType: 13, Uint64Data: []uint64{9}},
+			},
+			Input: []*onnx.ValueInfoProto{
+				{Name: "x", Type: &onnx.TypeProto{Value: &onnx.TypeProto_TensorType{TensorType: &onnx.TypeProto_Tensor{ElemType: 1, Shape: &onnx.TensorShapeProto{Dim: []*onnx.TensorShapeProto_Dimension{
+					{Value: &onnx.TensorShapeProto_Dimension_DimParam{DimParam: "N"}}, {Value: &onnx.TensorShapeProto_Dimension_DimValue{DimValue: 2}}, {}}}}}}},
+				{Name: "w", Type: &onnx.TypeProto{Value: &onnx.TypeProto_TensorType{TensorType: &onnx.TypeProto_Tensor{ElemType: 1}}}},
+			},
+			Output: []*onnx.ValueInfoProto{{Name: "y"}},
+			ValueInfo: []*onnx.ValueInfoProto{{Name: "c"}},
+			Node: []*onnx.NodeProto{
+				{Name: "n0", OpType: "Constant", Output: []string{"c"}, Attribute: []*onnx.AttributeProto{{Name: "value", Type: onnx.AttributeProto_TENSOR, T: &onnx.TensorProto{Dims: []int64{2}, DataType: 1, FloatData: []float32{1, 2}}}}},
+				{Name: "n1", OpType: "MatMul", Input: []string{"x", "w"}, Output: []string{"m"}},
+				{Name: "n2", OpType: "Transpose", Input: []string{"m"}, Output: []string{"t"}, Attribute: []*onnx.AttributeProto{{Name: "perm", Type: onnx.AttributeProto_INTS, Ints: []int64{1, 0}}}},
+				{Name: "n3", OpType: "Scaler", Input: []string{"t"}, Output: []string{"y"}, Attribute: []*onnx.AttributeProto{{Name: "offset", Type: onnx.AttributeProto_FLOATS, Floats: []float32{0.5}}, {Name: "scale", Type: onnx.AttributeProto_FLOATS, Floats: []float32{2}}}},
+				{Name: "n4", OpType: "LSTM", Input: []string{"x", "w", "w"}, Output: []string{"o"}, Attribute: []*onnx.AttributeProto{{Name: "hidden_size", Type: onnx.AttributeProto_INT, I: 2}, {Name: "activations", Type: onnx.AttributeProto_STRINGS, Strings: [][]byte{[]byte("Sigmoid"), []byte("Tanh"), []byte("Tanh")}}, {Name: "direction", Type: onnx.AttributeProto_STRING, S: []byte("forward")}, {Name: "clip", Type: onnx.AttributeProto_FLOAT, F: 1}}},
+			}}}
+	fieldSeeds := []proto.Message{rich}
+	for _, s := range seeds {
+		if len(s) > 5000 {
+			continue
+		}
+		mp := &onnx.ModelProto{}
+		if proto.Unmarshal(s, mp) == nil && mp.Graph != nil {
+			fieldSeeds = append(fieldSeeds, mp)
+		}
+	}
+	nField := 0
+	for si, fs := range fieldSeeds {
+		lim := 4000
+		if tier == "thorough" {
+			lim = 0
+		}
+		nField += forEachFieldMutant(fs, lim, func(b []byte, what string) { try(b, fmt.Sprintf("field mutant of seed model %d: %s", si, what)) })
+	}
+	count("bytes_kind", fmt.Sprintf("single-field mutants: %d", nField))
 	for k, v := range stat {
 		count("bytes_outcome", k)
 		meta.Distribution["bytes_outcome"][k] = v
